@@ -134,8 +134,9 @@ PROPS = {
         assumptions=PROC_ASSUME['C17'],
     ),
     'C06': dict(
-        lean=['Props.C06', 'Props.C06Spec', 'Props.C11Thr', 'Props.PipeThr'],
-        streams=['throttle'],
+        lean=['Props.C06', 'Props.C06Spec', 'Props.C11Thr', 'Props.PipeThr', 'Props.FactsWiring'],
+        streams=['throttle', 'e2e'],
+        project={'e2e': r'^$'},
         rule='same schedules as C05 (five phase styles, base-recorder start/write/stop failures in 35% of cases, restarts in the middle of a trigger); '
              'non-trivial = at least one throttled event; distinct by op text',
         trusted=['upstream obeys the recorder protocol (start write* stop)* - proved for the processor in C12 - enforced identically by harness and model'],
@@ -208,8 +209,8 @@ PROPS = {
     ),
     'C16': dict(
         lean=['Props.C16'],
-        streams=['conc'],
-        project={'conc': r'^$'},
+        streams=['conc', 'e2e'],
+        project={'conc': r'^$', 'e2e': r'^$'},
         rule='the real handleConn (two camera connections in a row, Boson frames larger than the bufio buffer, uniform pixel value = frame number) run concurrently with 1..4 goroutines calling '
              'service.TakeSnapshot / TakeTestRecording / CameraInfo, GOMAXPROCS 1..16, built with -race; every snapshot is checked to be uniform (a whole frame) and not older than the last frame '
              'completed when the request was made; data-race reports are read back and attributed to function pairs; non-trivial = at least 10 whole snapshots; the model side is the interleaving '
